@@ -24,3 +24,5 @@ Definition finalize_run cf st0 sts st1 := showQc (@g_finalize Qc _ cf st0 sts st
 Definition spec_smooth_run cf st0 sts dts := showQc (@g_spec_smooth Qc _ cf st0 sts dts).
 Definition error_run cf est per_unit prev_u t_prop dt ref atol rtol nk :=
   showQc (@g_error Qc _ cf est per_unit prev_u t_prop dt ref atol rtol nk).
+Definition interp_run cf st0 st1 t := showQc (@g_interp Qc _ cf st0 st1 t).
+Definition spec_union_run cf sc2 f0 nodes smooth := showQc (@g_spec_union Qc _ cf sc2 f0 nodes smooth).
